@@ -63,6 +63,9 @@ class GMRFPiecewiseCoalescentBlockUpdatingOperator(MCMCOperator):
         return math.sqrt(self._scaler - 1)
 
     def set_adaptable_parameter(self, value: float) -> None:
+        # sqrt(scaler - 1) is not negative: a step below zero would come back as
+        # a larger scaler (a bolder proposal after an acceptance below the target)
+        value = max(value, 0.0)
         self._scaler = 1 + value * value
 
     def propose_precision(self):
